@@ -121,7 +121,7 @@ def flows_contents():
                                 "gbad": "allowed_domains: [a, b\n  - : :\n\t}"}
     c["path_params/p.yaml"] = {"p1": "# path params p1\npath_params:\n  - url: pp.test/p/p1/{id}\n"}
     c["discover"] = {"s1": "{\"endpoints\": {}, \"tag\": \"s1\"}", "s2": "{\"endpoints\": {}, \"tag\": \"s2\"}", "sjunk": "not json {"}
-    c["remedy"] = {"r1": "{\"remedies\": [], \"tag\": \"r1\"}", "r2": "{\"remedies\": [], \"tag\": \"r2\"}"}
+    c["remedy"] = {"s1": "{\"remedies\": [], \"tag\": \"s1\"}", "s2": "{\"remedies\": [], \"tag\": \"s2\"}"}
     return c
 
 
@@ -178,3 +178,720 @@ def policies_contents():
 
 FLOW_PROBES = [{"id": "a", "url": "api.test/a"}, {"id": "b", "url": "api.test/b"}, {"id": "c", "url": "api.test/c"}]
 POLICY_PROBES = [{"id": "a", "url": "api.test/a"}, {"id": "d", "url": "api.test/d"}]
+
+
+# ------------------------------------------------------------------------------------------------ histories
+def fix(v):
+    """TLC's ToJson writes an empty function as an empty sequence"""
+    return {} if v == [] or v is None else v
+
+
+def op_from_model(o):
+    k = o["op"]
+    if k == "edit":
+        return {"op": "edit", "tree": fix(o["tree"])}
+    if k == "statefile":
+        return {"op": "statefile", "which": o["which"], "tag": o["tag"]}
+    if k == "hapfail":
+        return {"op": "hapfail", "nth": o["nth"]}
+    if k == "start":
+        return {"op": "start"}
+    if k == "call":
+        c = {"op": "call", "ep": o["ep"], "method": o["method"]}
+        if not o["decodable"]:
+            c["raw"] = "{nojson"
+        elif o["ep"] in ("apply_flows", "configuration"):
+            c["payload"] = fix(o["payload"])
+        if o.get("body"):
+            c["body"] = o["body"]
+        if o.get("txns"):
+            c["txns"] = ["t%d" % i for i in range(o["txns"])]
+        return c
+    if k == "begin":
+        return {"op": "begin", "u": o["u"], "ep": o["ep"], "payload": fix(o["payload"]), "point": o["point"], "nth": o["nth"]}
+    if k == "finish":
+        return {"op": "finish", "u": o["u"]}
+    raise Broken("unknown model operation %r" % (o,))
+
+
+def history_from_model(w):
+    ops = [op_from_model(o) for o in w["ops"]]
+    # a walk that ends while an update is parked: let it finish
+    if any(o["op"] == "begin" for o in ops) and not any(o["op"] == "finish" for o in ops):
+        ops.append({"op": "finish", "u": "A"})
+    return {"mode": w["mode"], "hub": bool(w["hub"]), "managed": "true" if w["managed"] else "", "ops": ops, "src": "model"}
+
+
+def call(ep, method="POST", **kw):
+    return dict(op="call", ep=ep, method=method, **kw)
+
+
+FLOW_TAGS = {"flows/a.yaml": ["v1", "v2", "v3", "junk", "rep", "bad"], "flows/b.yaml": ["v1", "v2", "v3", "junk", "rep", "bad", "dup", "lim"],
+             "flows/c.yaml": ["v1", "v2", "bad", "junk"], "quotas/q.yaml": ["q1", "q2", "qbad", "qjunk"], "gateway_config.yaml": ["g1", "g2", "gbad"]}
+OK_TAGS = {"flows/a.yaml": ["v1", "v2", "v3"], "flows/b.yaml": ["v1", "v2", "v3"], "flows/c.yaml": ["v1", "v2"], "quotas/q.yaml": ["q1", "q2"],
+           "gateway_config.yaml": ["g1", "g2"]}
+
+
+def rand_tree(rng, valid=None):
+    """a random tree of the tagged universe; valid=True: loadable by construction, None: anything"""
+    t = {}
+    src = OK_TAGS if valid else FLOW_TAGS
+    for p, tags in src.items():
+        if rng.random() < (0.55 if p.startswith("flows/") else 0.3):
+            t[p] = rng.choice(tags)
+    if valid and rng.random() < 0.2:
+        t["flows/b.yaml"], t["quotas/q.yaml"] = "lim", "q1"
+    return t
+
+
+def flows_requests(rng, tree_fn):
+    r = rng.random()
+    if r < 0.22:
+        return [call("validate_flows")]
+    if r < 0.40:
+        return [call("load_flows")]
+    if r < 0.52:
+        return [call("doctor", "GET")]
+    if r < 0.60:
+        return [{"op": "edit", "tree": tree_fn()}]
+    if r < 0.70:
+        pl = {k: v for k, v in tree_fn().items()}
+        return [call(rng.choice(["apply_flows", "configuration"]), "PUT", payload=pl)]
+    if r < 0.74:
+        return [{"op": "statefile", "which": rng.choice(["discover", "remedy"]), "tag": rng.choice(["s1", "s2", "absent"])}]
+    if r < 0.80:
+        return [call(rng.choice(["discover", "remedy_stats", "handshake"]), "GET")]
+    if r < 0.84:
+        return [call("on_haproxy_error", "PUT", **rng.choice([{"txns": ["t1", "t2"]}, {"raw": "{nojson"}, {"txns": []}]))]
+    if r < 0.90:       # routes: the other mode's endpoints, unknown paths, other verbs
+        return [call(rng.choice(["apply_policies", "validate_policies", "revert_to_last_loaded", "revert_to_diagnosis_free", "nonsense", "load_flowsx"]),
+                     rng.choice(["POST", "GET", "PUT"]))]
+    if r < 0.96:
+        ep = rng.choice(["load_flows", "validate_flows", "apply_flows", "configuration", "on_haproxy_error", "doctor", "discover", "handshake", "remedy_stats"])
+        right = {"load_flows": "POST", "validate_flows": "POST", "apply_flows": "PUT", "configuration": "PUT", "on_haproxy_error": "PUT"}.get(ep, "GET")
+        m = rng.choice([x for x in ["GET", "POST", "PUT", "DELETE", "PATCH"] if x != right])
+        kw = {"payload": tree_fn()} if ep in ("apply_flows", "configuration") else ({"txns": ["t1"]} if ep == "on_haproxy_error" else {})
+        return [call(ep, m, **kw)]
+    return [{"op": "hapfail", "nth": rng.choice([1, 1, 2, 3])}]
+
+
+def rand_flows_history(rng, n):
+    tf = lambda: rand_tree(rng, valid=rng.random() < 0.6 or None)
+    ops = [{"op": "edit", "tree": rand_tree(rng, valid=rng.random() < 0.7 or None)}, {"op": "start"}]
+    while len(ops) < n:
+        ops += flows_requests(rng, tf)
+    # a gated update with requests in between
+    if rng.random() < 0.35:
+        pl = tf()
+        ops.append({"op": "begin", "u": "A", "ep": rng.choice(["apply_flows", "configuration"]), "payload": pl,
+                    "point": rng.choice(["fs.store", "fs.store", "hdm.initialized", "hdm.published"]), "nth": rng.choice([1, 1, 2])})
+        for _ in range(rng.randint(1, 4)):
+            ops.append(rng.choice([call("validate_flows"), call("doctor", "GET"), call("handshake", "GET"),
+                                   call(rng.choice(["apply_flows", "configuration"]), "PUT", payload=tf()),
+                                   call("nonsense", "GET"), call("validate_flows", "GET")]))
+        ops.append({"op": "finish", "u": "A"})
+        ops += [call("doctor", "GET"), call("validate_flows")]
+    return {"mode": "flows", "hub": rng.random() < 0.7, "managed": rng.choice(["true", "", "false"]), "ops": ops, "src": "random"}
+
+
+def order_histories(rng):
+    """S3 / S6 directly: on the same tree validate* ; load and load ; validate*, and the start-up of a fresh engine on it"""
+    out = []
+    t0 = rand_tree(rng, valid=True)
+    t = rand_tree(rng, valid=rng.random() < 0.4 or None)
+    k = rng.randint(1, 3)
+    out.append({"mode": "flows", "hub": True, "managed": "", "src": "order",
+                "ops": [{"op": "edit", "tree": t0}, {"op": "start"}, {"op": "edit", "tree": t}] + [call("validate_flows")] * k +
+                       [call("load_flows"), call("doctor", "GET")] + [call("validate_flows")]})
+    out.append({"mode": "flows", "hub": True, "managed": "", "src": "order",
+                "ops": [{"op": "edit", "tree": t0}, {"op": "start"}, {"op": "edit", "tree": t}, call("load_flows"), call("doctor", "GET")] +
+                       [call("validate_flows")] * k})
+    out.append({"mode": "flows", "hub": rng.random() < 0.5, "managed": "", "src": "order",
+                "ops": [{"op": "edit", "tree": t}, {"op": "start"}, call("validate_flows"), call("doctor", "GET"), call("load_flows")]})
+    return out
+
+
+POL_OK = ["P1", "P2", "P3", "Q1", "Q2"]
+POL_BAD = ["pjunk", "punk", "pdup", "pexp", "pacct", "pconf"]
+
+
+def rand_pol(rng, ok=0.6):
+    return rng.choice(POL_OK) if rng.random() < ok else rng.choice(POL_BAD)
+
+
+def pol_edit(tag):
+    return {"op": "edit", "tree": {"policies.yaml": tag} if tag != "none" else {}}
+
+
+def rand_policies_history(rng, n):
+    ops = [pol_edit(rand_pol(rng, 0.8) if rng.random() < 0.9 else "none"), {"op": "start"}]
+    while len(ops) < n:
+        r = rng.random()
+        if r < 0.15:
+            ops.append(pol_edit(rand_pol(rng) if rng.random() < 0.92 else "none"))
+        elif r < 0.33:
+            ops.append(call("validate_policies"))
+        elif r < 0.50:
+            ops.append(call("apply_policies"))
+        elif r < 0.60:
+            ops.append(call("apply_policies", body=rand_pol(rng)))
+        elif r < 0.68:
+            ops.append(call("revert_to_last_loaded"))
+        elif r < 0.76:
+            ops.append(call("revert_to_diagnosis_free"))
+        elif r < 0.85:
+            ops.append(call("doctor", "GET"))
+        elif r < 0.89:
+            ops.append(call(rng.choice(["handshake", "discover", "remedy_stats"]), "GET"))
+        elif r < 0.91:
+            ops.append({"op": "statefile", "which": rng.choice(["discover", "remedy"]), "tag": rng.choice(["s1", "s2", "absent"])})
+        elif r < 0.95:
+            ops.append(call(rng.choice(["load_flows", "validate_flows", "apply_flows", "configuration", "on_haproxy_error", "nonsense"]),
+                            rng.choice(["POST", "PUT", "GET"])))
+        elif r < 0.98:
+            ep = rng.choice(["apply_policies", "validate_policies", "revert_to_last_loaded", "revert_to_diagnosis_free", "doctor", "handshake"])
+            right = "GET" if ep in ("doctor", "handshake") else "POST"
+            ops.append(call(ep, rng.choice([x for x in ["GET", "POST", "PUT", "DELETE"] if x != right])))
+        else:
+            ops.append({"op": "hapfail", "nth": rng.choice([1, 2, 3])})
+    return {"mode": "policies", "hub": False, "managed": rng.choice(["true", "", "false"]), "ops": ops, "src": "random"}
+
+
+def pol_order_histories(rng):
+    t0, t = rng.choice(POL_OK), rand_pol(rng, 0.4)
+    k = rng.randint(1, 3)
+    return [{"mode": "policies", "hub": False, "managed": "", "src": "order",
+             "ops": [pol_edit(t0), {"op": "start"}, pol_edit(t)] + [call("validate_policies")] * k + [call("apply_policies"), call("doctor", "GET"),
+                                                                                                  call("validate_policies"), call("revert_to_last_loaded")]},
+            {"mode": "policies", "hub": False, "managed": "", "src": "order",
+             "ops": [pol_edit(t0), {"op": "start"}, pol_edit(t), call("apply_policies"), call("doctor", "GET")] + [call("validate_policies")] * k},
+            {"mode": "policies", "hub": False, "managed": "", "src": "order",
+             "ops": [pol_edit(t), {"op": "start"}, call("validate_policies"), call("doctor", "GET")]}]
+
+
+def T(a=None, b=None, c=None, q=None, g=None):
+    t = {}
+    for k, v in (("flows/a.yaml", a), ("flows/b.yaml", b), ("flows/c.yaml", c), ("quotas/q.yaml", q), ("gateway_config.yaml", g)):
+        if v:
+            t[k] = v
+    return t
+
+
+def E(**kw):
+    return {"op": "edit", "tree": T(**kw)}
+
+
+def directed_histories():
+    """hand-written tours: every route of both modes with both answers, every validity class of a tree through validate, load
+    and start-up, the two update endpoints, requests while an update is parked, a refusal of the proxy"""
+    fl = lambda ops, hub=True, managed="true": {"mode": "flows", "hub": hub, "managed": managed, "ops": ops, "src": "directed"}
+    po = lambda ops, managed="": {"mode": "policies", "hub": False, "managed": managed, "ops": ops, "src": "directed"}
+    A, B, Q, G = "flows/a.yaml", "flows/b.yaml", "quotas/q.yaml", "gateway_config.yaml"
+    hs = []
+    tour = [E(a="v1", b="v1"), {"op": "start"}, call("validate_flows"), call("doctor", "GET"), call("handshake", "GET"), call("discover", "GET"),
+            {"op": "statefile", "which": "discover", "tag": "s1"}, call("discover", "GET"), call("remedy_stats", "GET"),
+            {"op": "statefile", "which": "remedy", "tag": "s2"}, call("remedy_stats", "GET")]
+    for t in (T(a="v2", b="bad"), T(a="v2", b="junk"), T(a="v2", b="rep"), T(a="v2", b="dup"), T(b="dup"), T(a="v3", b="lim"),
+              T(a="v3", b="lim", q="q1"), T(a="v3", q="qbad"), T(a="v3", q="qjunk"), T(a="v3", g="gbad"), T(), T(q="q1")):
+        tour += [{"op": "edit", "tree": t}, call("validate_flows"), call("load_flows"), call("doctor", "GET")]
+    tour += [call("apply_policies"), call("validate_policies"), call("nonsense", "GET"), call("load_flows", "GET"), call("validate_flows", "PUT"),
+             call("on_haproxy_error", "PUT", txns=["t1"]), call("on_haproxy_error", "GET", txns=["t1"]), call("on_haproxy_error", "PUT", raw="{nojson"),
+             call("on_haproxy_error", "POST", raw="{nojson"), call("doctor", "POST"), call("handshake", "POST"), call("discover", "DELETE")]
+    hs.append(fl(tour))
+    for i, t in enumerate([T(a="v1", b="junk"), T(a="v1", b="rep"), T(a="v1", b="bad"), T(a="junk"), T(a="v1", q="qjunk"), T(a="v1", q="qbad"),
+                           T(a="v1", g="gbad"), T(a="v1", b="dup"), T(a="v1", b="lim"), T(), T(a="rep", b="junk"), T(a="v1", b="lim", q="q1")]):
+        hs.append(fl([{"op": "edit", "tree": t}, {"op": "start"}, call("validate_flows"), call("doctor", "GET"), call("handshake", "GET"),
+                      call("load_flows")], hub=i % 2 == 0, managed=["", "true", "false"][i % 3]))
+    hs.append(fl([E(a="v1", b="v1", q="q2", g="g1"), {"op": "start"},
+                  call("configuration", "PUT", payload={A: "v2"}), call("configuration", "PUT", payload={B: "bad"}),
+                  call("configuration", "PUT", payload={G: "gbad"}), call("configuration", "PUT", payload={"flows/c.yaml": "v1", G: "g2"}),
+                  call("apply_flows", "PUT", payload={A: "v3"}), call("apply_flows", "PUT", payload={A: "v1", B: "junk"}),
+                  call("apply_flows", "PUT", payload={Q: "q1"}), call("apply_flows", "PUT", payload={B: "lim", Q: "q1", G: "g1"}),
+                  call("apply_flows", "PUT", payload={}), call("configuration", "PUT", payload={}), call("configuration", "PUT", raw="{nojson"),
+                  call("apply_flows", "POST", payload={A: "v1"}), call("doctor", "GET"),
+                  {"op": "hapfail", "nth": 1}, E(a="v2"), call("load_flows"), call("doctor", "GET"), call("load_flows"),
+                  {"op": "hapfail", "nth": 1}, E(a="v3", b="v1"), call("validate_flows"), call("load_flows"), call("load_flows"),
+                  {"op": "hapfail", "nth": 2}, call("configuration", "PUT", payload={A: "v1", B: "v2"}), call("doctor", "GET")]))
+    hs.append(fl([E(a="v1", b="v1", q="q2", g="g1"), {"op": "start"},
+                  {"op": "begin", "u": "A", "ep": "configuration", "payload": {A: "v2", B: "v2"}, "point": "fs.store", "nth": 2},
+                  call("validate_flows"), call("configuration", "PUT", payload={A: "v3"}), call("apply_flows", "PUT", payload={A: "v3"}),
+                  call("apply_flows", "GET"), call("doctor", "GET"), call("handshake", "GET"), call("nonsense", "GET"), {"op": "finish", "u": "A"},
+                  {"op": "begin", "u": "A", "ep": "apply_flows", "payload": {A: "v1"}, "point": "hdm.initialized", "nth": 1},
+                  call("validate_flows"), call("configuration", "PUT", payload={A: "v3"}), call("doctor", "GET"), {"op": "finish", "u": "A"},
+                  {"op": "begin", "u": "A", "ep": "configuration", "payload": {A: "v2", B: "bad"}, "point": "hdm.published", "nth": 1},
+                  call("validate_flows"), call("doctor", "GET"), {"op": "finish", "u": "A"},
+                  {"op": "begin", "u": "A", "ep": "configuration", "payload": {A: "v2", B: "bad"}, "point": "fs.store", "nth": 2},
+                  call("validate_flows"), call("on_haproxy_error", "PUT", txns=["t"]), {"op": "finish", "u": "A"}, call("doctor", "GET")]))
+    hs.append(fl([E(a="v1", b="v1"), {"op": "start"}, E(a="v1"), call("configuration", "PUT", payload={A: "bad"}), call("doctor", "GET"),
+                  E(a="v2", b="v2"), call("apply_flows", "PUT", payload={A: "bad"}), E(a="v3", b="junk"), call("apply_flows", "PUT", payload={A: "bad"}),
+                  call("doctor", "GET")]))
+    ptour = [pol_edit("P1"), {"op": "start"}, call("validate_policies"), call("doctor", "GET"), call("handshake", "GET"),
+             {"op": "statefile", "which": "discover", "tag": "s2"}, call("discover", "GET"), call("remedy_stats", "GET"),
+             pol_edit("P2"), call("validate_policies"), call("apply_policies"), call("doctor", "GET"),
+             call("revert_to_diagnosis_free"), call("doctor", "GET"), call("revert_to_last_loaded")]
+    for t in POL_BAD:
+        ptour += [pol_edit(t), call("validate_policies"), call("apply_policies"), call("doctor", "GET"), call("revert_to_last_loaded"),
+                  call("revert_to_diagnosis_free")]
+    ptour += [pol_edit("Q1"), call("apply_policies"), call("revert_to_diagnosis_free"), call("revert_to_last_loaded"),
+              call("apply_policies", body="P3"), call("apply_policies", body="punk"), call("apply_policies", body="pconf"),
+              call("apply_policies", body="pjunk"), call("doctor", "GET"), pol_edit("none"), call("validate_policies"), call("apply_policies"),
+              call("load_flows"), call("validate_flows"), call("configuration", "PUT"), call("apply_policies", "GET"),
+              call("validate_policies", "PUT"), call("revert_to_last_loaded", "GET"),
+              {"op": "hapfail", "nth": 1}, call("apply_policies", body="P1"), {"op": "hapfail", "nth": 2}, call("apply_policies", body="P2"),
+              {"op": "hapfail", "nth": 1}, call("revert_to_last_loaded"), call("doctor", "GET")]
+    hs.append(po(ptour, managed="true"))
+    for t in POL_BAD + ["none", "Q2"]:
+        hs.append(po([pol_edit(t), {"op": "start"}, call("validate_policies"), call("handshake", "GET"), call("doctor", "GET")]))
+    return hs
+
+
+# trees whose validity the specification does not know: configurations of the C04 / C05 generators (valid and invalid in
+# every class of the loader's rules) and the quota files of C05, next to a loadable marker flow
+def opaque_bundles(rng, n, big):
+    import _flowgraph as fg
+    bundles = []
+    hand = list(fg.handcrafted().values())
+    rng.shuffle(hand)
+    qf = sorted(fg.QUOTA_FILES)
+    for i in range(n):
+        r = rng.random()
+        files = {}
+        if r < 0.55:
+            files = fg.render(fg.vary_impl(fg.random_config(rng, big), rng))
+        elif r < 0.75 and hand:
+            files = fg.render(fg.vary_impl(json.loads(json.dumps(hand[i % len(hand)])), rng))
+        else:
+            k = rng.choice(qf)
+            a, b = fg.QUOTA_FILES[k]
+            files = {"quotas/xa.yaml": a}
+            if b is not None:
+                files["quotas/xb.yaml"] = b
+            if rng.random() < 0.5:
+                files.update(fg.render({"flows": [fg.flow("A", [("p", "Plain")], [fg.conn(fg.S("start"), fg.P("p")), fg.conn(fg.P("p"), fg.S("end"))],
+                                                          [fg.conn(fg.S("start"), fg.S("end"))])], "quotas": []}))
+        files = {("flows/X%s" % p[len("flows/"):] if p.startswith("flows/") else p): c for p, c in files.items()}
+        bundles.append(files)
+    return bundles
+
+
+def opaque_histories(rng, bundles, contents):
+    """every bundle through every way a tree reaches the loader: validate, load, start-up, apply_flows, configuration -
+    in both orders, always next to marker flows the probes can see"""
+    hs = []
+    import hashlib
+    for i, files in enumerate(bundles):
+        tree = {}
+        for p, c in files.items():
+            if c is None:
+                continue
+            tag = "x" + hashlib.sha1(c.encode()).hexdigest()[:8]      # the same text under the same path is the same tag
+            contents.setdefault(p, {})[tag] = c
+            tree[p] = tag
+        m1 = {"flows/a.yaml": rng.choice(["v1", "v2"])}
+        m2 = {"flows/a.yaml": "v3", "flows/b.yaml": rng.choice(["v1", "v2"])}
+        full = dict(tree, **m2)
+        first = rng.random() < 0.5
+        seq = [call("validate_flows"), call("load_flows")] if first else [call("load_flows"), call("validate_flows")]
+        hs.append({"mode": "flows", "hub": True, "managed": "", "src": "opaque",
+                   "ops": [{"op": "edit", "tree": m1}, {"op": "start"}, {"op": "edit", "tree": full}] + seq +
+                          [call("doctor", "GET"), call("validate_flows"), {"op": "edit", "tree": m1}, call("load_flows"),
+                           call(rng.choice(["apply_flows", "configuration"]), "PUT", payload=full), call("doctor", "GET"), call("validate_flows")]})
+        hs.append({"mode": "flows", "hub": True, "managed": "", "src": "opaque",
+                   "ops": [{"op": "edit", "tree": full}, {"op": "start"}, call("validate_flows"), call("doctor", "GET"), call("load_flows")]})
+    return hs
+
+
+# ------------------------------------------------------------------------------------------------ execution
+def script_for(mode, hists, contents):
+    return {"config": {"mode": mode}, "contents": contents, "probes": FLOW_PROBES if mode == "flows" else POLICY_PROBES, "histories": hists}
+
+
+_sink = []
+
+
+def start_sink():
+    """the engine dials its export server (127.0.0.1:5140) at start-up and retries for 2 s when nobody listens"""
+    if _sink:
+        return
+    try:
+        s = socket.socket()
+        s.setsockopt(socket.SOL_SOCKET, socket.SO_REUSEADDR, 1)
+        s.bind(("127.0.0.1", 5140))
+        s.listen(64)
+    except OSError:
+        return          # somebody else listens (another run of this check): good enough
+
+    def loop():
+        while True:
+            try:
+                c, _ = s.accept()
+            except OSError:
+                return
+            threading.Thread(target=lambda c=c: (c.settimeout(30), [None for _ in iter(lambda: _recv(c), b"")], c.close()), daemon=True).start()
+
+    def _recv(c):
+        try:
+            return c.recv(65536)
+        except OSError:
+            return b""
+    threading.Thread(target=loop, daemon=True).start()
+    _sink.append(s)
+
+
+def run_batches(ctx, binary, batches, tag):
+    """batches: [(mode, [history..], contents)] -> list of event lists (config line first)"""
+    def one(it):
+        i, (mode, hists, contents) = it
+        d = ctx.sub("run-%s-%d" % (tag, i))
+        for k, h in enumerate(hists):
+            h["id"] = k + 1
+        json.dump(script_for(mode, [{k: v for k, v in h.items() if k != "src"} for h in hists], contents), open(os.path.join(d, "script.json"), "w"))
+        ctx.run_harness(binary, ["run", os.path.join(d, "script.json"), d], cwd=ctx.sub("cwd-%s-%d" % (tag, i)), timeout=900)
+        ev = read_ndjson(os.path.join(d, "trace.ndjson"))
+        for e in ev:
+            e.pop("body", None)          # the text of the answer is not part of any judgement
+        os.remove(os.path.join(d, "script.json"))
+        return ev
+    return parallel(one, list(enumerate(batches)), n=min(6, len(batches)) or 1)
+
+
+DEV_RE = re.compile(r'<<\s*"DEV",\s*(\d+),\s*\{([^}]*)\}\s*>>')
+
+
+def validate(ctx, events, cfg, tag, max_rounds=5):
+    """TLC validates one trace (config + histories) against AdminP; returns (accepted histories, rejected, DEV lines).
+    A rejected history is taken out and the rest validated again (vlib.validate_history_trace, plus the DEV lines)."""
+    import shutil
+    config, hs = split_histories(events)
+    rejected, devs = [], []
+    sd = ctx.spec_dir(SPEC)
+    wd = os.path.join(ctx.scratch, "tv-%s" % tag)
+    if not os.path.isdir(wd):
+        shutil.copytree(sd, wd)
+    rounds = 0
+    while True:
+        rounds += 1
+        flat = [config] + [e for h in hs for e in h]
+        p = os.path.join(wd, "trace.ndjson")
+        write_ndjson(p, flat)
+        ok, hwm, r = ctx.tlc_trace(wd, "AdminTrace", p, cfg=cfg, timeout=600)
+        if ok and not r.violated:
+            for m in DEV_RE.finditer(r.out):
+                for name in re.findall(r'"([^"]+)"', m.group(2)):
+                    devs.append((int(m.group(1)), name, flat[int(m.group(1)) - 1]))
+            return len(hs), rejected, devs
+        if hwm < 1:
+            raise Broken("trace validation made no progress (%s): %s\n%s" % (tag, r, r.out[-2500:]))
+        if r.error and not r.violated:
+            raise Broken("trace validation failed to evaluate line %d (%s): %s\n%s" % (hwm + 1, tag, json.dumps(flat[min(hwm, len(flat) - 1)])[:600], r.out[-2500:]))
+        idx = hwm - 2            # the state after consuming line hwm violates the invariant
+        k = 0
+        for hi, h in enumerate(hs):
+            if idx < k + len(h):
+                rejected.append({"hist": h, "at": idx - k, "invariant": r.violated})
+                del hs[hi]
+                break
+            k += len(h)
+        else:
+            raise Broken("cannot locate rejected line %d of %d" % (hwm, len(flat)))
+        if rounds >= max_rounds or not hs:
+            return len(hs), rejected, devs
+
+
+def witness_of(rej, hist):
+    e = rej["hist"][min(rej["at"], len(rej["hist"]) - 1)]
+    return {"class": rej.get("invariant") or "rejected", "mode": hist["mode"], "event": e.get("ev"), "endpoint": e.get("ep", ""),
+            "method": e.get("method", ""), "code": e.get("code", e.get("ok", "")), "source": hist.get("src", ""),
+            "position": rej["at"], "history_len": len(hist["ops"])}
+
+
+def clean(h):
+    return {k: v for k, v in h.items() if k != "id"}
+
+
+# ------------------------------------------------------------------------------------------------ run
+FLAGS = {"flows_load": ["ValidateLenient", "LoadSkipsValidation", "ValidatePublishes", "GetReloads", "DoctorFromDisk", "PolicyRoutesInFlows"],
+         "flows_update": ["NoLock", "RestoreSkipped"],
+         "policies": ["RevertFromPoliciesFile", "BodyFileFirst", "DoctorFromDiskPol"]}
+REPORTED = set()
+UNREPRODUCED = []
+
+
+def model_histories(out, want, rng):
+    """walks of the model: the same prefix with a different last operation is printed many times - a few of each prefix"""
+    by_prefix = {}
+    for w in tlc_vh_lines(out):
+        key = json.dumps(w["ops"][:-1], sort_keys=True)
+        by_prefix.setdefault(key, []).append(w)
+    hs = []
+    for key in sorted(by_prefix):
+        ws = by_prefix[key]
+        rng.shuffle(ws)
+        hs += ws[:2]
+    rng.shuffle(hs)
+    return [history_from_model(w) for w in hs[:want]]
+
+
+def judge(ctx, binary, traces, batches, tag, stats):
+    def one(it):
+        i, ev = it
+        return validate(ctx, ev, "AdminTrace_both.cfg", "%s%d" % (tag, i))
+    res = parallel(one, list(enumerate(traces)), n=4)
+    for bi, ((acc, rejected, devs), ev) in enumerate(zip(res, traces)):
+        mode, hists, contents = batches[bi]
+        cfg, hs = split_histories(ev)
+        ctx.cov["traces_validated_against_impl"] += acc
+        stats["events"] += len(ev) - 1
+        for h in hs:
+            n = sum(1 for e in h if e["ev"] in ("call", "start", "begin", "finish"))
+            ctx.cov["evaluations"] += n
+            src = hists[h[0]["hist"] - 1].get("src", "")
+            stats["by_source"][src] = stats["by_source"].get(src, 0) + 1
+            key = json.dumps([{k: v for k, v in o.items()} for o in hists[h[0]["hist"] - 1]["ops"]], sort_keys=True)
+            if key not in stats["seen"]:
+                stats["seen"].add(key)
+                # non-trivial: the history loaded a configuration after start-up or was refused one
+                if any(e["ev"] == "call" and e.get("ep") in ("load_flows", "apply_flows", "configuration", "apply_policies",
+                                                           "revert_to_last_loaded", "revert_to_diagnosis_free") and e["code"] not in (404, 405, 0) for e in h):
+                    ctx.cov["distinct_nontrivial"] += 1
+            for e in h:
+                if e["ev"] == "call":
+                    k = "%s %s %s" % (e["method"], e["ep"], e["code"])
+                    stats["answers"][k] = stats["answers"].get(k, 0) + 1
+        for line, name, e in devs:
+            stats["devs"][name] = stats["devs"].get(name, 0) + 1
+            if name not in stats["dev_examples"]:
+                stats["dev_examples"][name] = {"mode": mode, "event": {k: v for k, v in e.items() if k != "obs"},
+                                               "observed": {k: e.get("obs", {}).get(k) for k in ("disk", "served")}}
+        for rej in rejected:
+            hist = hists[rej["hist"][0]["hist"] - 1]
+            w = witness_of(rej, hist)
+            if w["class"] == "Harness":       # the recording does not have the shape the specification expects: a fault of the machinery
+                raise Broken("recorded history is not a history of the interface (executor / driver fault): %s\n%s" % (
+                    json.dumps(w), json.dumps([{k: v for k, v in e.items() if k != "obs"} for e in rej["hist"][: rej["at"] + 1]])[-1500:]))
+            sig = json.dumps(w, sort_keys=True)
+            if sig in REPORTED or len(ctx.violations) >= 6:
+                continue
+            REPORTED.add(sig)
+            found = None
+            for attempt in range(3):
+                t2 = run_batches(ctx, binary, [(mode, [dict(clean(hist))], contents)], "%s-repro" % tag)[0]
+                a2, r2, _ = validate(ctx, t2, "AdminTrace_both.cfg", "%s-repro" % tag, max_rounds=1)
+                if r2:
+                    found = (witness_of(r2[0], hist), t2)
+                    break
+            if found is None:
+                UNREPRODUCED.append(w)
+                ctx.log("rejection not reproduced: %s" % json.dumps(w))
+                continue
+            used = {p: {t: contents[p][t] for t in contents[p]} for p in contents
+                    if any(p in json.dumps(o) for o in hist["ops"]) or p in ("discover", "remedy", "policies.yaml")}
+            ctx.violation(found[0], {"mode": mode, "history": clean(hist), "contents": used, "trace": found[1], "clause": found[0]["class"]})
+
+
+def clause_of(r):
+    m = re.findall(r'/\\ viol = "([^"]*)"', r.out)
+    return m[-1] if m else ""
+
+
+def run(ctx):
+    T = ctx.thorough
+    os.environ.setdefault("JAVA_TOOL_OPTIONS", "-Xmx2g")
+    start_sink()
+    binary = ctx.build_harness("x08")
+    sd = ctx.spec_dir(SPEC)
+    rng = ctx.rng
+    ctx.cov["rule"] = ("history = operator actions on one engine process (edit of the tree, start-up, any request of the administrative "
+                       "interface, one update parked at a yield point, one refusal of the proxy's admin API); histories = walks of the "
+                       "TLA+ model MC_X08 (TLC -simulate) + seeded random histories over a wider universe + order histories "
+                       "(validate* ; load / load ; validate* / start-up on the same tree) + trees of the C04/C05 generators; every event is "
+                       "judged by AdminP; non-trivial = the history loaded, or was refused, a configuration after start-up; distinct by operations")
+    ctx.cov["checker_cmd"] = ("tlc -config MC_flows_load_*.cfg|MC_flows_update_*.cfg|MC_policies_*.cfg MC_X08.tla ; tlc -config MC_nv_<flag>.cfg MC_X08.tla ; "
+                              "tlc -simulate -config GenX08_*.cfg MC_X08.tla ; tlc -config AdminTrace_both.cfg AdminTrace.tla")
+    ctx.cov["trusted_base"] = ["TLC 1.8", "CommunityModules Json", "Go toolchain", "loopback fake of the HAProxy admin / health API (harness/cmd/x08)",
+                               "loopback sink standing for Fluent Bit's syslog input (127.0.0.1:5140)",
+                               "probe projection: flows mode = version header written by the flow of the probed URL; policy mode = early-response "
+                               "status of the endpoint's fixed_response remedy + whether the diagnosis worker was handed the transaction",
+                               "projection of the files the engine writes itself (loaded-policies*.yaml, doctor's active policies) onto "
+                               "(remedy names, number of diagnosis plugins); SHA-256 / tag table of the tree computed by the harness",
+                               "a Lunar Hub that is configured but unreachable (so that the engine keeps the loaded configuration for the doctor)"]
+    ctx.assumptions += ["one engine process per history: real NewHandlingDataManager + Setup + SetHandleRoutes + routing.Handler",
+                        "requests are issued one after the other; the only overlap is one /apply_flows or /configuration parked at a yield point "
+                        "(fs.store, hdm.initialized, hdm.published) while other requests are answered; /load_flows next to a running update is outside the statement",
+                        "an infrastructure failure = one admin call of the proxy refused with 500; the statement then accepts the old or the new configuration",
+                        "the delayed un-registration of endpoints (30 s) never happens within a history",
+                        "metrics configuration files are outside the observed tree"]
+
+    # (1) exhaustive I => P, non-vacuity, generation - at most four JVMs at a time
+    sfx = "thorough" if T else "quick"
+    jobs = [("mc", "MC_flows_load_%s.cfg" % sfx), ("mc", "MC_flows_update_%s.cfg" % sfx), ("mc", "MC_policies_%s.cfg" % sfx)]
+    jobs += [("nv", f) for fam in FLAGS.values() for f in fam]
+    nw = (60, 60, 60) if not T else (700, 400, 500)
+    jobs += [("gen", ("GenX08_flows.cfg", nw[0])), ("gen", ("GenX08_flows_nohub.cfg", nw[1])), ("gen", ("GenX08_policies.cfg", nw[2]))]
+    if T:
+        jobs += [("doc", "MC_policies_doc.cfg"), ("doc", "MC_flows_load_doc.cfg"), ("eng", "MC_policies_engine.cfg"), ("eng", "MC_flows_load_engine.cfg")]
+
+    def stage(job):
+        kind, arg = job
+        if kind == "mc":
+            return ctx.tlc_exhaustive(sd, "MC_X08", arg, timeout=1500, heap="4g" if T else "2g", workers=4 if T else 3,
+                                      label="AdminI => AdminP, every order of operations")
+        if kind == "nv":
+            return ctx.tlc(sd, "MC_X08", "MC_nv_%s.cfg" % arg, workers=1, timeout=600, heap="1g", label="non-vacuity: %s must be refuted" % arg)
+        if kind == "doc":
+            return ctx.tlc(sd, "MC_X08", arg, workers=2, timeout=600, heap="1g", label="the engine's model under the documented reading only: must be refuted")
+        if kind == "eng":
+            return ctx.tlc_exhaustive(sd, "MC_X08", arg, timeout=900, heap="2g", workers=2, label="the engine's model under the engine's reading only")
+        cfgname, num = arg
+        return ctx.tlc(sd, "MC_X08", cfgname, workers=1, timeout=600, heap="1g", simulate="num=%d" % num, depth=400,
+                       extra=["-seed", str(ctx.seed)], label="operation sequences (walks)")
+    res = parallel(stage, jobs, n=4)
+    refuted = {}
+    walks = {}
+    for (kind, arg), r in zip(jobs, res):
+        if kind == "nv":
+            if r.violated is None:
+                raise Broken("the model cannot tell deviation %s from the statement (vacuous refinement check): %r" % (arg, r))
+            refuted[arg] = clause_of(r)
+        if kind == "doc":
+            if r.violated is None:
+                raise Broken("%s: the documented reading alone accepts the engine's model - the named deviations are vacuous: %r" % (arg, r))
+            refuted["documented reading only, " + arg] = clause_of(r)
+        if kind == "gen":
+            if not r.ok:
+                raise Broken("generation %s failed: %r\n%s" % (arg[0], r, r.out[-1500:]))
+            walks[arg[0]] = r.out
+    ctx.notes.append("deviations of AdminI refuted by TLC (violated clause): %s" % json.dumps(refuted, sort_keys=True))
+
+    # (2) spec -> code: the walks of the model; (3) code -> spec: seeded random histories over a wider universe
+    n_model = (36, 30, 40) if not T else (600, 300, 450)
+    hf = model_histories(walks["GenX08_flows.cfg"], n_model[0], rng) + model_histories(walks["GenX08_flows_nohub.cfg"], n_model[1], rng)
+    hp = model_histories(walks["GenX08_policies.cfg"], n_model[2], rng)
+    if len(hf) < (40 if not T else 500) or len(hp) < (25 if not T else 300):
+        raise Broken("generation produced only %d flows-mode and %d policy-mode histories" % (len(hf), len(hp)))
+    ctx.log("TLC generated %d flows-mode and %d policy-mode operation sequences" % (len(hf), len(hp)))
+    nr = (40, 40, 8, 8, 10) if not T else (700, 600, 80, 80, 120)
+    hf += [rand_flows_history(rng, rng.randint(8, 18)) for _ in range(nr[0])]
+    hp += [rand_policies_history(rng, rng.randint(8, 20)) for _ in range(nr[1])]
+    for _ in range(nr[2]):
+        hf += order_histories(rng)
+    for _ in range(nr[3]):
+        hp += pol_order_histories(rng)
+    dh = directed_histories()
+    hf += [h for h in dh if h["mode"] == "flows"]
+    hp += [h for h in dh if h["mode"] == "policies"]
+    fcont, pcont = flows_contents(), policies_contents()
+    ocont = flows_contents()
+    ho = opaque_histories(rng, opaque_bundles(rng, nr[4], T), ocont)
+    ctx.sample({"kind": "generated-history", "mode": hf[0]["mode"], "ops": hf[0]["ops"]})
+    nproc = 3 if not T else 5
+    batches = [("flows", hf[i::nproc], fcont) for i in range(nproc)] + [("policies", hp[i::nproc], pcont) for i in range(nproc)]
+    batches += [("flows", ho[i::2], ocont) for i in range(2 if len(ho) > 8 else 1)]
+    batches = [b for b in batches if b[1]]
+    traces = run_batches(ctx, binary, batches, "h")
+    ctx.log("recorded %d histories (%d events) in %d batches" % (sum(len(b[1]) for b in batches), sum(len(t) - 1 for t in traces), len(batches)))
+    ctx.sample({"kind": "recorded-history", "events": [{k: v for k, v in e.items() if k != "arg"} for e in traces[0][1:8]]})
+    stats = {"events": 0, "by_source": {}, "seen": set(), "answers": {}, "devs": {}, "dev_examples": {}}
+    judge(ctx, binary, traces, batches, "p", stats)
+    ctx.cov["histories_by_source"] = stats["by_source"]
+    ctx.cov["events_validated"] = stats["events"]
+    ctx.cov["answers_seen"] = dict(sorted(stats["answers"].items()))
+    ctx.cov["engine_readings_seen"] = stats["devs"]
+    ctx.notes.append("acceptances that needed the engine's reading of the statement (doc/code disagreements observed on the real code): %s" %
+                     json.dumps(stats["devs"], sort_keys=True))
+    for name, ex in sorted(stats["dev_examples"].items()):
+        ctx.notes.append("example %s: %s" % (name, json.dumps(ex, sort_keys=True)[:900]))
+    # vacuity of the recorded part: every route of both modes answered, both verdicts of every validating / loading endpoint seen
+    need = ["POST validate_flows 200", "POST validate_flows 422", "POST load_flows 200", "POST load_flows 400", "PUT configuration 200",
+            "PUT apply_flows 200", "POST validate_policies 200", "POST validate_policies 422", "POST apply_policies 200", "POST apply_policies 422",
+            "POST revert_to_last_loaded 200", "POST revert_to_diagnosis_free 200", "GET doctor 200", "GET handshake 200", "GET discover 200",
+            "GET remedy_stats 200", "PUT on_haproxy_error 200"]
+    missing = [k for k in need if k not in stats["answers"]]
+    if missing or not any(k.endswith(" 404") for k in stats["answers"]) or not any(k.endswith(" 405") for k in stats["answers"]):
+        raise Broken("vacuous run: answers never observed: %s" % (missing or "404 / 405"))
+    if T and not any(k.endswith(" 226") for k in stats["answers"]):
+        raise Broken("vacuous run: no request was refused with 226 while an update was parked")
+    if UNREPRODUCED:
+        ctx.notes.append("rejections not reproduced by re-execution: %s" % json.dumps(UNREPRODUCED)[:1500])
+        if not ctx.violations:
+            raise Broken("rejection not reproduced: %s" % json.dumps(UNREPRODUCED[0]))
+    if T:
+        self_test(ctx, traces, batches)
+
+
+def self_test(ctx, traces, batches):
+    """binding: corrupted / truncated recordings must be rejected; the documented reading alone must reject the recorded
+    disagreements and the engine's reading alone must accept them"""
+    results = {}
+    fl = next(i for i, b in enumerate(batches) if b[0] == "flows")
+    po = next(i for i, b in enumerate(batches) if b[0] == "policies")
+    cfg, hs = split_histories(traces[fl])
+
+    def pick(pred):
+        for h in hs:
+            for k, e in enumerate(h):
+                if pred(e):
+                    return h, k
+        raise Broken("self-test: no suitable recorded event")
+    # (a) a rejected validation reported as accepted
+    h, k = pick(lambda e: e["ev"] == "call" and e.get("ep") == "validate_flows" and e["code"] == 422)
+    bad = [dict(e) for e in h]
+    bad[k]["code"], bad[k]["codes"] = 200, [200]
+    _, rej, _ = validate(ctx, [cfg] + bad, "AdminTrace_both.cfg", "self-a", max_rounds=1)
+    results["validation verdict flipped"] = bool(rej) and rej[0]["invariant"] == "ValidateVerdict"
+    # (b) a refused load after which another configuration serves
+    h, k = pick(lambda e: e["ev"] == "call" and e.get("ep") == "load_flows" and e["code"] == 400 and not e["obs"]["hapfault"])
+    bad = [json.loads(json.dumps(e)) for e in h]
+    bad[k]["obs"]["served"]["a"] = "v9"
+    _, rej, _ = validate(ctx, [cfg] + bad, "AdminTrace_both.cfg", "self-b", max_rounds=1)
+    results["refused load changed what serves"] = bool(rej) and rej[0]["invariant"] == "LoadOutcome"
+    # (c) the start-up event dropped
+    h, k = pick(lambda e: e["ev"] == "start" and e["ok"])
+    _, rej, _ = validate(ctx, [cfg] + [e for i, e in enumerate(h) if i != k], "AdminTrace_both.cfg", "self-c", max_rounds=1)
+    results["dropped start-up event"] = bool(rej)
+    # (d) a validation that wrote to the proxy
+    h, k = pick(lambda e: e["ev"] == "call" and e.get("ep") == "validate_flows")
+    bad = [json.loads(json.dumps(e)) for e in h]
+    bad[k]["obs"]["put"] = 3
+    _, rej, _ = validate(ctx, [cfg] + bad, "AdminTrace_both.cfg", "self-d", max_rounds=1)
+    results["validation that registered endpoints"] = bool(rej) and rej[0]["invariant"] == "ValidatePure"
+    # (e) policy mode: the doctor reporting other policies than the ones serving
+    pcfg, phs = split_histories(traces[po])
+    h, k = next((h, k) for h in phs for k, e in enumerate(h) if e["ev"] == "call" and e.get("ep") == "doctor" and e["code"] == 200)
+    bad = [json.loads(json.dumps(e)) for e in h]
+    bad[k]["ans"]["pol"] = {"names": ["P9"], "nd": 0}
+    _, rej, _ = validate(ctx, [pcfg] + bad, "AdminTrace_both.cfg", "self-e", max_rounds=1)
+    results["doctor reporting other policies"] = bool(rej) and rej[0]["invariant"] == "Introspect"
+    # (f) the two readings: the recorded traces under the documented reading only / the engine's reading only
+    acc_d, rej_d, _ = validate(ctx, traces[po], "AdminTrace_doc.cfg", "self-doc", max_rounds=3)
+    acc_e, rej_e, _ = validate(ctx, traces[po], "AdminTrace_engine.cfg", "self-eng", max_rounds=2)
+    results["documented reading alone rejects recorded policy-mode histories"] = bool(rej_d)
+    results["engine's reading alone accepts them"] = not rej_e
+    ctx.notes.append("self-test: " + json.dumps(results))
+    if not all(results.values()):
+        raise Broken("binding self-test failed: %s" % json.dumps(results))
+
+
+def replay(ctx, path):
+    obj = json.load(open(path))
+    start_sink()
+    binary = ctx.build_harness("x08")
+    rp = obj["replay"]
+    cont = flows_contents() if rp["mode"] == "flows" else policies_contents()
+    for p, m in rp.get("contents", {}).items():
+        cont.setdefault(p, {}).update(m)
+    rej = []
+    for attempt in range(3):
+        t = run_batches(ctx, binary, [(rp["mode"], [dict(rp["history"])], cont)], "replay")[0]
+        acc, rej, _ = validate(ctx, t, "AdminTrace_both.cfg", "replay", max_rounds=1)
+        if rej:
+            break
+    for e in t:
+        print(json.dumps(e)[:1200])
+    if rej:
+        print("VIOLATION property=X08 replay=%s" % path)
+        print("   clause %s violated at event %d: %s" % (rej[0].get("invariant"), rej[0]["at"],
+                                                        json.dumps({k: v for k, v in rej[0]["hist"][min(rej[0]["at"], len(rej[0]["hist"]) - 1)].items() if k != "obs"})[:500]))
+        return 1
+    print("replay accepted by the specification")
+    return 0
